@@ -171,6 +171,10 @@ func (mr *MonitoredResource) MonitoredResource() (resType string, labels map[str
 	return
 }
 
+// minQPS is the lowest accepted probe rate: one probe every 10^9 seconds
+// (about 31.7 years), an interval of 10^18ns that still fits a time.Duration.
+const minQPS = 1e-9
+
 func validateFlags() []error {
 	var errs []error
 
@@ -184,8 +188,12 @@ func validateFlags() []error {
 	}
 
 	// We limit qps to < 1000 to ensure we don't overload Spanner accidentally.
-	if *qps <= 0 || *qps > 1000 {
-		errs = append(errs, fmt.Errorf("qps must be 1 <= qps <= 1000, was %v", *qps))
+	// The probe interval is time.Second/qps nanoseconds and has to be a positive
+	// time.Duration, so qps must also not be NaN (every comparison with NaN is
+	// false, hence the positive form of the test) or so small that the interval
+	// overflows int64; time.NewTicker panics on a non-positive interval.
+	if !(*qps >= minQPS && *qps <= 1000) {
+		errs = append(errs, fmt.Errorf("qps must be %v <= qps <= 1000, was %v", minQPS, *qps))
 	}
 
 	if *numRows <= 0 {
